@@ -3,6 +3,7 @@
 import json,sys
 pid=sys.argv[1]
 round2 = len(sys.argv)>2 and sys.argv[2]=='round2'
+round3 = len(sys.argv)>2 and sys.argv[2]=='round3'
 for l in open('/verif/properties.jsonl'):
     p=json.loads(l)
     if p['id']==pid: break
@@ -33,7 +34,19 @@ Deliverables, for X in {{LA}}, {{LB}} -- directory /tmp/seed/{pid}X/ containing:
   - the demo test file, plus a file DEMO_PATH.txt with its path relative to the repository root (e.g. caskethttp/proxy/zz_seed_demo_test.go) and the `go test -run` command that runs it
   - meta.json : {{"property": "{pid}", "summary": "...what the change does and how it breaks the property...", "needs_to_manifest": "...", "files_changed": [...], "commands_run": [...], "demo_fails_with_change": true, "demo_passes_without_change": true, "existing_tests_pass_with_change": true}}
 When finished with both, leave the worktree clean (git -C {wt} checkout -- . ; remove your demo test files from it) and reply with a short summary of the two changes. If you cannot find a second change, deliver one.""")
-if round2:
+if round3:
+    import glob,re,os
+    places=set()
+    for d in sorted(glob.glob('/verif/seeded/%s?/'%pid)):
+        try:
+            for l in open(d+'patch.diff'):
+                if l.startswith('+++ b/'): cur=l[6:].strip()
+                m=re.match(r'^@@ .* @@ (.*)$', l)
+                if m and m.group(1).strip(): places.add(cur+': '+m.group(1).strip()[:90])
+        except Exception: pass
+    hint=('This is a third round. Earlier engineers already changed these places (file: enclosing declaration), so choose DIFFERENT functions and a different mechanism: '+'; '.join(sorted(places))+'. Good hunting grounds: helper functions and constructors the central functions rely on, setup/parsing code of the directives involved, error and panic paths, state that survives across requests or reloads, interactions between two files or two directives, arithmetic and boundary conditions. ')
+    text=text.replace('{ROUND2}',hint).replace('{LA}','E').replace('{LB}','F')
+elif round2:
     text=text.replace('{ROUND2}','This is a second round: an earlier engineer already tried the most obvious places (the central function of each mechanism). Look for LESS obvious places: helper functions, constructors and setup code that establish what the central functions rely on, error and panic paths, interactions between two directives or two files, state that survives across requests or reloads. ').replace('{LA}','C').replace('{LB}','D')
 else:
     text=text.replace('{ROUND2}','').replace('{LA}','A').replace('{LB}','B')
